@@ -229,6 +229,13 @@ def range_body(ctx: Ctx, p: dict) -> None:
             state["off_mask"] = ((m0 & INV) == 0) & ~on
             if state["off_mask"].any():
                 state["offsample_refined"] = True
+            rd = machine.right_disparity
+            if rd is not None and "disparity_map" in rd:
+                # the right map is refined on its own cost volume: it may receive off-sample disparities when the left does not
+                axis_r = machine.right_cv.coords["disp"].data.astype(np.float64)
+                on_r = np.isin(rd["disparity_map"].data.astype(np.float64), axis_r)
+                if (((rd["validity_mask"].data & INV) == 0) & ~on_r).any():
+                    state["offsample_refined_right"] = True
 
     def after(machine, step, kind):
         if kind in ("filter", "validation"):
@@ -280,7 +287,7 @@ def range_body(ctx: Ctx, p: dict) -> None:
         dr, mr = res.right["disparity_map"].data, res.right["validity_mask"].data
         vr = (mr & INV) == 0
         badr = vr & ~((dr >= -gmax - 1e-6) & (dr <= -gmin + 1e-6))
-        if badr.any() and state["offsample_refined"] and not (vr & ~((dr >= -gmax - half) & (dr <= -gmin + half))).any():
+        if badr.any() and state.get("offsample_refined_right") and not (vr & ~((dr >= -gmax - half) & (dr <= -gmin + half))).any():
             r, c = np.argwhere(badr)[0]
             ctx.violation("C09/refinement-of-off-sample-disparity-leaves-interval",
                           f"right pixel {(int(r), int(c))} d={dr[r, c]} interval [{-gmax},{-gmin}] pipeline={p['pipeline']}")
